@@ -148,7 +148,11 @@ def cases(rng, tier):
             tree = [h]
         elif h in ("presence", "absence"):
             w = rnd_which(rng, N, allow_int=True)
-            tree = [h, rng.randrange(N) if w is None else w]
+            w = rng.randrange(N) if w is None else w
+            if rng.random() < 0.3:
+                # positions counted from the end (presence/absence address the symbols by Python indexing, so these are legal)
+                w = (w - N) if isinstance(w, int) else [v - N if rng.random() < 0.6 else v for v in w]
+            tree = [h, w]
         elif h == "one":
             tree = [h, rnd_which(rng, N, allow_empty=False)]
         else:
@@ -193,8 +197,8 @@ def which_list(w, N):
     if w is None:
         return list(range(N))
     if isinstance(w, int):
-        return [w]
-    return list(w)
+        return [w % N]
+    return [v % N for v in w]
 
 
 def spec(tree, N, X):
@@ -272,6 +276,8 @@ def build(tree, N, syms, rounding):
         return r
     w = tree[1]
     if t in ("presence", "absence"):
+        if isinstance(w, list) and len(w) and sum(w) % 3 == 0:
+            w = np.array(w) if sum(w) % 2 else tuple(w)       # the same positions as a NumPy array / a tuple
         return getattr(tn, t)(N, w)
     return getattr(tn, t)(N) if w is None else getattr(tn, t)(N, w)
 
